@@ -6,10 +6,13 @@ import vlib, translate, build_repo
 
 t = time.time()
 print("translate:", {k: v.get("error", "ok") for k, v in translate.run().items()})
-import re
+import re, json
+claimed = [c["property_id"] for c in json.load(open(os.path.join(vlib.VERIF, "MANIFEST.json")))["checks"]]
+wanted = {"drv_" + p.lower() for p in claimed} | ({"drv_c01"} if "C11" in claimed else set())
 exes = [e for e in re.findall(r'name = "(drv_\w+)"', open(os.path.join(vlib.LEAN, "lakefile.toml")).read())
-        if os.path.exists(os.path.join(vlib.LEAN, "Driver", e[4:].upper() + ".lean"))]
-ok, log, wall = vlib.lake_build(["SimuVerif"] + exes)
+        if e in wanted and os.path.exists(os.path.join(vlib.LEAN, "Driver", e[4:].upper() + ".lean"))]
+audits = ["SimuVerif.Audit." + p for p in claimed if os.path.exists(os.path.join(vlib.LEAN, "SimuVerif", "Audit", p + ".lean"))]
+ok, log, wall = vlib.lake_build(["SimuVerif"] + exes + audits)
 print("lake build SimuVerif %s: ok=%s %.0fs" % (" ".join(exes), ok, wall))
 if not ok:
     print(log[-4000:])
